@@ -41,8 +41,10 @@ EXPLANATION = (
     "constants): no literal that spells a TensorNames default (also t<n>[cc], p<n>, default + computed extension) reaches a "
     "tensor constructor name, a comparison / membership / table look-up / prefix test of a tensor name (.name reads and what "
     "is bound from them, tensor-name parameters found by a fixpoint over the call sites) or an argument bound to a "
-    "tensor-name parameter; functions that read the registry of intermediates are evaluated and every look-up key derived "
-    "from longname() must ask for default names. R19d: TensorNames evaluated: dataclass(frozen=True, slots=True), Singleton "
+    "tensor-name parameter; every member of Obj that reaches the registry of intermediates (directly or through self.<member>) is "
+    "evaluated with its helpers looked into on amplitude / density tensors that carry the configured names of a renamed and of "
+    "the default configuration: the registry must be asked for the registered default long name (t2_2, t2_1cc, p0_2_oo). "
+    "R19d: TensorNames evaluated: dataclass(frozen=True, slots=True), Singleton "
     "metaclass, one module-level instance = _from_config() = TensorNames(**json), defaults() = {field.name: field.default}; no "
     "attribute store / setattr on the instance (through any import alias) in the package. R19e: the code of Indices is evaluated "
     "on concrete registry states for all request histories up to depth 3 over an alphabet of generic and named requests "
@@ -895,6 +897,12 @@ def _okey(x):
     return repr(x)
 
 
+def _unordered_dicts(t):
+    """dict arguments of uninterpreted calls are compared as mappings (their insertion order is not a result)"""
+    from ..terms import rebuild
+    return rebuild(t, lambda x: T("dict", *sorted(x.args, key=repr)) if x.op == "dict" else x)
+
+
 class OrderSymex(Symex):
     """Symex with a chosen iteration order for sets; logs what every iteration site iterated."""
 
@@ -1071,13 +1079,22 @@ def _diff_spatial(ctx, order, log):
         t = Obj(None, label)
         sy = Obj(None, label + ".sympy")
 
+        def pairs_of(a):
+            m = [x for x in a if isinstance(x, (list, tuple, dict))][0]
+            return list(m.items()) if isinstance(m, dict) else list(m)
+
         def subs(sx_, a, kw):
-            pairs = [x for x in a if isinstance(x, (list, tuple))][0]
             cur = list(idx)
-            for old, new in pairs:      # sequential substitution as sympy does it
+            for old, new in pairs_of(a):      # sequential substitution as sympy does it
                 cur = [new if c is old else c for c in cur]
             return sym(f"{label}[{','.join(c.name for c in cur)}]")
+
+        def xreplace(sx_, a, kw):
+            mapping = pairs_of(a)             # all at once
+            cur = [next((n for o, n in mapping if o is c), c) for c in idx]
+            return sym(f"{label}[{','.join(c.name for c in cur)}]")
         sy.attrs["subs"] = subs
+        sy.attrs["xreplace"] = xreplace
         t.attrs.update(idx=tuple(idx), sympy=sy)
         return t
 
@@ -1094,7 +1111,7 @@ def _diff_spatial(ctx, order, log):
                     max_paths=256, hooks={"get_symbols": get_symbols, "integrate_spin": lambda s_, a_, k_: scen(),
                                           "Expr": lambda s_, a_, k_: sym("restricted")})
     outs = sx.run(fn, lambda: dict(expr=sym("input"), target_idx="", target_spin="", restricted=True, expand_eri=False))
-    res.append(sorted((o.kind, repr(canon(o.value)) if o.kind == "return" else o.exc) for o in outs))
+    res.append(sorted((o.kind, repr(_unordered_dicts(canon(o.value))) if o.kind == "return" else o.exc) for o in outs))
     return res
 
 
@@ -2010,43 +2027,118 @@ def _self_args(fn, mod):
     return make
 
 
+class _Registry(dict):
+    """the registry of intermediates (keyed by default long names); logs every key it is asked for"""
+
+    def __init__(self, entries, sx):
+        super().__init__(entries)
+        self.sx = sx
+
+    def __contains__(self, k):
+        self.sx.effects.append(T("asked", k if isinstance(k, (str, T)) else repr(k)))
+        return dict.__contains__(self, k)
+
+    def __getitem__(self, k):
+        if not dict.__contains__(self, k):
+            self.sx.effects.append(T("asked", k if isinstance(k, (str, T)) else repr(k)))
+        return dict.__getitem__(self, k)
+
+    def __deepcopy__(self, memo):
+        return self
+
+
+def _registry_readers(ctx):
+    """members of expr_container.Obj that reach the registry of intermediates (`.available`), directly or through self.<member>"""
+    m = ctx.model.module("expr_container")
+    members = {q.split(".", 1)[1]: f for q, f in m.functions.items() if q.startswith("Obj.") and q.count(".") == 1}
+    reach = {n for n, f in members.items() if any(isinstance(x, ast.Attribute) and x.attr == "available" for x in walk_fn(f))}
+    changed = True
+    while changed:
+        changed = False
+        for n, f in members.items():
+            if n in reach:
+                continue
+            for x in walk_fn(f):
+                if isinstance(x, ast.Attribute) and isinstance(x.value, ast.Name) and x.value.id == "self" and x.attr in reach:
+                    reach.add(n)
+                    changed = True
+                    break
+    return {n: members[n] for n in reach}
+
+
 def r19h(ctx):
-    """look-ups in the registry of intermediates (keyed by default names) use default names"""
+    """Look-ups in the registry of intermediates (keyed by default names): every member of Obj that reaches the registry is
+    evaluated on tensors that carry the *configured* names of a renamed configuration; the registry must be asked for the
+    default long name."""
     rule = "R19c"
-    n = 0
-    for ref, fn in ctx.model.all_functions():
-        if getattr(fn, "_fn", None) is not None:
-            continue
-        if not any(isinstance(x, ast.Attribute) and x.attr == "available" for x in walk_fn(fn)):
-            continue
-        mod = ref.split(":")[0]
-        sx = Symex(ctx.model, inline=lambda q: False, what=ref, max_paths=4096)
-        outs = sx.run(fn, _self_args(fn, mod))
-        keys = set()
-        for o in outs:
-            for t in subterms(list(o.effects) + [o.value] + [a for a, _ in o.path]):
-                k = None
-                if t.op == "mcall" and t.args[1] in ("get", "pop", "__getitem__", "__contains__") and t.args[2]:
-                    recv, k = t.args[0], t.args[2][0]
-                elif t.op == "item":
-                    recv, k = t.args[0], t.args[1]
-                elif t.op == "cmp" and t.args[0] in ("in", "not in"):
-                    recv, k = t.args[2], t.args[1]
-                if k is None or not isinstance(recv, T):
-                    continue
-                if not any(s.op == "attr" and s.args[1] == "available" for s in subterms(recv)):
-                    continue
-                for c in subterms(k):
-                    if c.op == "mcall" and c.args[1] == "longname":
-                        keys.add(c)
-        for c in sorted(keys, key=show):
-            n += 1
-            flag = args_of(c).get("use_default_names", args_of(c).get(0))
-            ctx.check(rule, fn, flag is True, f"{ref.split(':')[1]}: intermediates looked up by their default long name",
-                      f"`{show(c)}` is used as key of the registry of intermediates, which is keyed by default names; looking up the "
-                      "configured long name misses every intermediate as soon as tensor_names.json renames amplitudes/densities",
-                      fn=ref, key=f"lookup {ref}")
-    ctx.floor(rule, "registry look-ups by long name", n, 3)
+    defaults = _defaults(ctx)
+    t, p = defaults["gs_amplitude"], defaults["gs_density"]
+    readers = _registry_readers(ctx)
+    ctx.floor(rule, "members of Obj that reach the registry of intermediates", len(readers), 3)
+
+    def fields_hook(sx_, a, kw):
+        out = []
+        for nm, d in defaults.items():
+            f = Obj(None, f"field:{nm}")
+            f.attrs.update(name=nm, default=d)
+            out.append(f)
+        return out
+    n_lookups = 0
+    for conf_name, conf in (("renamed", {"gs_amplitude": "T", "gs_density": "rho"}), ("default", {})):
+        cfg = dict(defaults)
+        cfg.update(conf)
+        # (label, configured name, upper, lower, space, default long name)
+        tensors = [("second order doubles amplitude", cfg["gs_amplitude"] + "2", 2, 2, "vvoo", f"{t}2_2"),
+                   ("complex conjugate first order amplitude", cfg["gs_amplitude"] + "1cc", 2, 2, "oovv", f"{t}2_1cc"),
+                   ("second order density, occupied block", cfg["gs_density"] + "2", 1, 1, "oo", f"{p}0_2_oo")]
+        for member, fn in sorted(readers.items()):
+            for label, name, n_up, n_lo, space, want in tensors:
+                tn = Obj("tensor_names:TensorNames", "tensor_names")
+                tn.attrs.update(cfg)
+                sx = Symex(ctx.model, inline=lambda q: q.startswith("expr_container:Obj.") or q.startswith("tensor_names:"),
+                           hooks={"tensor_names": tn, "fields": fields_hook}, what=f"Obj.{member}", max_paths=512)
+                itmd = Obj(None, f"<registered {want}>")
+                itmd.attrs.update(order=7, allowed_spin_blocks=("registered",), name=want)
+                sx.hooks["Intermediates"] = lambda s_, a_, k_, want=want, itmd=itmd: _reg_obj(s_, {want: itmd, "other_1": Obj(None, "<other>")})
+
+                def args():
+                    idx = tuple(_idx(c) for c in ("ab" if space[0] == "v" else "ij")[:n_up] + ("ij" if space[0] == "v" else "ab")[:n_lo])
+                    base = Obj(None, f"{name}[{space}]")
+                    base.attrs.update(_classes={"SymbolicTensor", "AntiSymmetricTensor", "Amplitude"}, name=name, upper=idx[:n_up],
+                                      lower=idx[n_up:], idx=idx, is_number=False, bra_ket_sym=0)
+                    me = Obj("expr_container:Obj", "self")
+                    term = Obj(None, "self.term")
+                    term.attrs["target"] = ()
+                    me.attrs.update(sympy=base, idx=idx, space=space, term=term, assumptions={}, _sym_tensors=set(), _antisym_tensors=set())
+                    d = {}
+                    a = fn.args
+                    for prm in a.posonlyargs + a.args:
+                        if prm.arg == "self":
+                            d["self"] = me
+                    return d
+                outs = sx.run(fn, args)
+                asked = [e.args[0] for o in outs if o.kind == "return" for e in o.effects if isinstance(e, T) and e.op == "asked"]
+                if not asked:
+                    if outs and all(o.kind == "raise" for o in outs):
+                        n_lookups += 1
+                        ctx.bad(rule, fn, f"Obj.{member} raises {sorted({o.exc for o in outs})} for the {label} named `{name}` ({conf_name} "
+                                "configuration) before the registry of intermediates is consulted", fn=f"expr_container:Obj.{member}",
+                                key=f"lookup Obj.{member} {conf_name} {want} raises")
+                    continue        # this member does not consult the registry for this kind of tensor
+                n_lookups += 1
+                wrong = sorted({show(k) for k in asked if k != want})
+                ctx.check(rule, fn, not wrong, f"Obj.{member}: {label} named `{name}` ({conf_name} configuration) is looked up as `{want}`",
+                          f"Obj.{member} asks the registry of intermediates (keyed by default names) for {wrong} when the {label} carries "
+                          f"the configured name `{name}` ({conf_name} configuration `{conf}`); the registered name is `{want}`: the tensor is "
+                          "no longer recognised as an intermediate as soon as tensor_names.json renames amplitudes/densities",
+                          fn=f"expr_container:Obj.{member}", key=f"lookup Obj.{member} {conf_name} {want}")
+    ctx.floor(rule, "registry look-ups evaluated", n_lookups, 6)
+
+
+def _reg_obj(sx, entries):
+    r = Obj(None, "Intermediates()")
+    r.attrs["available"] = _Registry(entries, sx)
+    return r
 
 
 def _deco_call(cls, name):
